@@ -82,7 +82,15 @@ CHECKS["C18"] = ("exploration",
                  "seeded CP/M programs; 1/3 with breakpoints after every call, 1/3 with 1-3 failing console writes, 1/3 with NMI/INT at ticks, 1/8 with cancellations at ticks; non-trivial = program asks for at least one console byte; distinct by scenario fingerprint",
                  ["BDOS behaviour as in the property statement"])
 
-PENDING = ["C13"]
+CHECKS["C13"] = ("fault_enumeration",
+                 "Every scenario runs in a testing/synctest bubble. Run's goroutine enters simulator code at every bus access; there the simulator fires the cancellation (cancel() on Run's own goroutine, from a second goroutine, a fake-clock deadline with simulated per-access latency, an already cancelled context, or never) and calls synctest.Wait(), which returns only when Run's watcher, context's propagation goroutines and the canceller are durably blocked or gone: 'the watcher has published' is a known instant. Slow watchers are produced through the caller-supplied context (SimCtx) whose n-th Err() call is held for j further accesses. Cancellation instants: a window of consecutive ticks (so every access phase inside an instruction is hit) plus seeded ones, per program class (2-byte JR loop, DJNZ nest, LDIR with BC=0 in a loop, IN/OUT loop, structured terminating programs with interrupts and breakpoints). Oracles: returned error is the context's error unless the stop rule fired at that very Step (never nil otherwise); bounded liveness: at most 65536 Steps start after publication; the CPU equals a Step-driven twin after a whole number of Steps (a return tick inside a twin Step = stopped mid-instruction) and does not change after Run returned; no goroutine left: contexts are never cancelled by the harness afterwards and the bubble must end without the deadlock panic (also after 200-10000 consecutive Run calls). The same bubbles also run in the -race binary, plus a labelled free-running side-car (cancel from a real second goroutine at spread instants) that asserts only the detector's verdict and the error value, never a delay.",
+                 "Liveness bound is deliberately generous (65536 Steps) so that a legitimate 'poll every n Steps' optimisation does not alarm (checked: a poll-every-64 variant stays quiet). With an already-cancelled context the very first Step races with the watcher by design (no seam before the first access): both outcomes are accepted and excluded from the replayable statistics. Process-wide goroutine counts are not used as an oracle (the runtime starts helper goroutines lazily; it was flaky) - the bubble-scoped deadlock panic is. The race side-car is runtime monitoring, outside the family.",
+                 "deterministic simulation: synctest bubble (fake clock, quiescence) + device-callback yield points + caller-supplied context as a second seam; enumerated cancellation instants",
+                 "DESIGN.md 4 C13",
+                 "5 of 6 scenarios: one bubble = 4-12 Run calls on fresh CPUs, each cancelled at its own tick (half of them consecutive ticks), parent context in {Background, WithCancel, WithTimeout, nested, SimCtx with held Err call}, cancel by {self, other goroutine, fake-clock deadline, pre-cancelled, never}; 1 of 6: 200-10000 consecutive Run calls for leak accounting; race-binary workers: half bubbles, half free-running; distinct non-trivial = (scenario, cancellation instant) pairs in which Run was actually ended by the cancellation",
+                 ["synctest.Wait() returns only when all other goroutines of the bubble are durably blocked", "B = 65536 Steps"])
+
+PENDING = []
 
 
 def chk(pid):
